@@ -55,6 +55,36 @@ def pure_monitor(meta, out):
     return None
 
 
+def mon_layout(steps, meta):
+    """every new version sits at store_root/<path relative to the common parent>/<version>[-k]<extension of the file>
+    for a file whose write was accepted"""
+    import re
+    written = set()
+    prev = None
+    for st in steps:
+        if st.op == "write" and len(st.tok) > 2:
+            p = vlib.unhexs(st.tok[2])
+            if p.startswith(wc.WATCH + "/"):
+                written.add(p[len(wc.WATCH) + 1:])
+        if st.dump is None:
+            continue
+        cur = st.dump
+        if prev is not None:
+            for p, e in cur.items():
+                if p.startswith("/k/store/") and e[0] == "file" and p not in prev:
+                    rel, name = p[len("/k/store/"):].rsplit("/", 1)
+                    if rel not in written:
+                        return "new version %s is not under the relative path of any file whose write was accepted (%s)" % (p, sorted(written)[:6])
+                    ext = spec_ext(rel)
+                    if not re.match(r"^v\d+(-\d+)?" + re.escape(ext) + "$", name):
+                        return "new version %s is not named <version>[-k]%s" % (p, ext)
+        prev = cur
+    return None
+
+
+wk.MONITORS["layout"] = mon_layout
+
+
 def main(rep):
     exe_impl, exe_model = vlib.prepare(rep)
     found = False
@@ -71,18 +101,20 @@ def main(rep):
                 found = True
                 break
             if exe_model and impl.get(cid) != model.get(cid):
-                rep.violation("correspondence", {"case": cid, "script": [script], "driver": "pure", "implementation": impl.get(cid),
-                                                 "model": model.get(cid), "what": "implementation and model differ"}, found_input=False)
-                found = True
-                break
+                # a divergence is reported only if no monitor fires on any case (a concrete failing input wins)
+                rep.defer_divergence({"case": cid, "script": [script], "driver": "pure", "implementation": impl.get(cid),
+                                                 "model": model.get(cid), "what": "implementation and model differ"})
+                continue
             validated += 1
             if "." in meta[1] if meta[0] == "ext" else True:
                 nontrivial.add(script)
         rng = random.Random(rep.seed)
         nw = 150 if rep.tier == "quick" else 3000
         wcases = [("w%d" % i, wc.gen_world_case(rng, dump_around=True), {}) for i in range(nw)]
+        # projects whose root is not directly under the common parent (children of a project parent), files at depth
+        wcases += [("j%d" % i, wc.gen_project_case(rng)[0], {}) for i in range(nw // 3)]
         if not found:
-            f2, v2 = wk.run_cases(rep, exe_impl, exe_model, wcases, ["confined"], what="confinement")
+            f2, v2 = wk.run_cases(rep, exe_impl, exe_model, wcases, ["confined", "layout", "faithful"], what="confinement")
             found = found or f2
             validated += v2
             for c in wcases:
@@ -94,7 +126,8 @@ def main(rep):
                                          "store_paths": sum(1 for c in pc if c[2][0] == "sp"), "world_histories": len(wcases)}
         rep.cov["rule"] = ("extension: every name over {a,b,.,/} up to length %d plus random names; store paths with 0..1234 collisions; "
                            "confinement: random handler histories (files, history paths, projects, deletions, reloads, restarts) with the call log of every "
-                           "operation checked against the configured locations and the watched tree compared before/after each timeout pass; "
+                           "operation checked against the configured locations and the watched tree compared before/after each timeout pass; every new version must sit at "
+                           "store_root/<relative path>/<version>[-k]<extension> of a file whose write was accepted and equal its source; "
                            "non-trivial = name contains a dot / history with at least one handler operation" % (6 if rep.tier == "quick" else 7))
         rep.cov["samples"] = [pc[37][1], wcases[0][1].split("\n")[-12:]]
         for p in problems:
